@@ -195,6 +195,11 @@ def atom_of(v):
         na, nb = atom_name(a, {}), atom_name(b, {})
         if na and nb and na.endswith('.left') and nb.endswith('.left'):
             return ('leftcmp', x[1], na[:-5], nb[:-5])
+        # equality of two event points as a whole
+        if x[1] in ('eq', 'ne'):
+            pa, pb = point_ent(a), point_ent(b)
+            if pa[0] != '?' and pb[0] != '?':
+                return ('pointcmp', x[1], pa, pb)
         # orientation != 0
         if a[0] == 'pcall' and (a[1].endswith('orient2d') or a[1].endswith('signed_area::signed_area')) and b[0] == 'c':
             return ('orient', x[1], tuple(point_ent(q) for q in a[2]), b[1])
@@ -225,9 +230,25 @@ def atom_of(v):
     return ('unknown', show(noepoch(x))[:80])
 
 
+def known_ref(v):
+    """the value behind a reference into a known temporary (`&(a, b).0` -> a); v itself otherwise"""
+    x = strip_upd(v)
+    while x[0] == 'ref' and x[1][0][0] == 'ext' and strip_upd(x[1][0][1])[0] == 'refval':
+        cur = strip_upd(strip_upd(x[1][0][1])[1])
+        for step in x[1][1]:
+            if step[0] != 'f' or cur[0] != 'agg':
+                return x
+            names = list(cur[3]) if cur[3] else list(range(len(cur[4])))
+            if step[1] not in names:
+                return x
+            cur = strip_upd(cur[4][names.index(step[1])])
+        x = cur
+    return x
+
+
 def point_ent(v):
     """'self' / 'other' / 'oself' / 'oother' for the point of an event (robust Coord{x,y} copies included)"""
-    x = strip_upd(v)
+    x = known_ref(v)
     if x[0] == 'agg' and x[5].endswith('Coord') and len(x[4]) == 2:
         a = strip_upd(x[4][0])
         if a[0] == 'field' and a[2] == 'x':
@@ -243,12 +264,14 @@ def point_ent(v):
 class Geo:
     """one abstract configuration of two events a, b: signs of coordinate differences, flags, orientation sign"""
 
-    def __init__(self, sx, sy, la, lb, ha, hb, s, subja, subjb):
+    def __init__(self, sx, sy, la, lb, ha, hb, s, subja, subjb, eqo=False):
         self.sx, self.sy, self.l, self.h, self.s, self.subj = sx, sy, {'a': la, 'b': lb}, {'a': ha, 'b': hb}, s, {'a': subja, 'b': subjb}
+        self.eqo = eqo      # the two other end points coincide (only possible with orientation 0)
 
     def key(self):
-        return 'sx=%d,sy=%d,left=%d%d,has_other=%d%d,orient=%d,subject=%d%d' % (
-            self.sx, self.sy, self.l['a'], self.l['b'], self.h['a'], self.h['b'], self.s, self.subj['a'], self.subj['b'])
+        return 'sx=%d,sy=%d,left=%d%d,has_other=%d%d,orient=%d,subject=%d%d%s' % (
+            self.sx, self.sy, self.l['a'], self.l['b'], self.h['a'], self.h['b'], self.s, self.subj['a'], self.subj['b'],
+            ',same-other-point' if self.eqo else '')
 
 
 def ev_atom(at, g, role):
@@ -267,6 +290,20 @@ def ev_atom(at, g, role):
         s = g.sx if axis == 'x' else g.sy
         d = 0 if r(e1) == r(e2) else (s if (r(e1), r(e2)) == ('a', 'b') else -s)
         return {'gt': d > 0, 'lt': d < 0, 'ne': d != 0, 'eq': d == 0, 'ge': d >= 0, 'le': d <= 0}[op]
+    if k == 'pointcmp':
+        _, op, e1, e2 = at
+        own = {'self', 'other'}
+        if e1 == e2:
+            same = True
+        elif e1 in own and e2 in own:
+            same = g.sx == 0 and g.sy == 0
+        elif e1 not in own and e2 not in own:
+            if not (g.h['a'] and g.h['b']):
+                raise ValueError('other end point of an event without other event')
+            same = g.eqo
+        else:
+            raise ValueError('comparison of an event point with an other end point (%s, %s)' % (e1, e2))
+        return same if op == 'eq' else not same
     if k == 'leftcmp':
         _, op, e1, e2 = at
         v = g.l[r(e1)] != g.l[r(e2)]
@@ -392,8 +429,10 @@ def check_antisym(ctx, rep, rule='O-antisym-event'):
     try:
         for sx, sy in itertools.product((-1, 0, 1), repeat=2):
             for la, lb, ha, hb, sa, sb in itertools.product((False, True), repeat=6):
-                for s in (-1, 0, 1):
-                    g = Geo(sx, sy, la, lb, ha, hb, s, sa, sb)
+                for s, eqo in ((-1, False), (0, False), (0, True), (1, False)):
+                    if eqo and not (ha and hb):
+                        continue
+                    g = Geo(sx, sy, la, lb, ha, hb, s, sa, sb, eqo)
                     ab = eval_cmp(rows, g, {'self': 'a', 'other': 'b'})
                     ba = eval_cmp(rows, g, {'self': 'b', 'other': 'a'})
                     n += 1
